@@ -232,7 +232,8 @@ where
 
     #[inline]
     fn empty(&mut self) {
-        self.slice = &[];
+        // Keep the position, so that `offset_from` and `lookup_offset_id` still work.
+        self.slice = &self.slice[..0];
     }
 
     #[inline]
